@@ -43,14 +43,21 @@ Missing(t) == {Append(PathTo(t, d), m) \o tl :
                  d \in Dirs(t), m \in MissNames(t), tl \in Tails}
 BelowFiles(t) == {Append(PathTo(t, f), 1) : f \in {x \in 1..Len(t.nodes) : KindOf(t, x) = "f"}}
                  \cup {Append(Append(PathTo(t, d), -1), 1) : d \in {x \in Dirs(t) : FilledDir(t, x)}}
+\* names looked up on every returned directory node: the pool, a name that never exists, first / last /
+\* one-beyond-the-last filler number
+Probe(t) == (1..(K + 1)) \cup {-1, 0 - (t.fill + 1)} \cup (IF t.fill > 0 THEN {0 - t.fill} ELSE {})
+\* Uses(t)[d + 1] = what node d gives when the caller USES it after the resolver returned
+Uses(t) == [i \in 1..(Len(t.nodes) + 1) |-> Use(t, i - 1, Probe(t))]
+FillerUse(t) == Use(t, FillerFile, Probe(t))
 \* r without the bookkeeping set; eh = the open finding Dev_C33_EmptyHamtUnreadable applies to <<last, path>>
 Res(t, q) == LET F[r \in {ResolveTree(t, q)}] ==
                     [segs |-> q, r |-> [st |-> r.st, at |-> r.at, idx |-> r.idx, name |-> r.name],
+                     via |-> IF r.st = "ok" THEN Via(t, q) ELSE <<>>,   \* the node every returned component must be
                      ehLast |-> HitsEmptyHamt(t, r, "last"), ehPath |-> HitsEmptyHamt(t, r, "path")]
              IN F[ResolveTree(t, q)]
 Queries(t) == {Res(t, q) : q \in Existing(t) \cup Missing(t) \cup BelowFiles(t)}
 
-Emit == PrintT(<<"BEHAVIOUR", ToJson([k |-> "tree", fan |-> fan, kpool |-> K, tree |-> tree, queries |-> Queries(tree)])>>)
+Emit == PrintT(<<"BEHAVIOUR", ToJson([k |-> "tree", fan |-> fan, kpool |-> K, tree |-> tree, uses |-> Uses(tree), fuse |-> FillerUse(tree), queries |-> Queries(tree)])>>)
 GSane == WellFormed(tree) /\ ExistingResolve(tree)
 \* model-level sanity of the rule on every query of the tree (phase M): a result is "ok" exactly for
 \* the paths of nodes / filler entries, a NoLink names the first segment that is not an entry of the
@@ -66,9 +73,28 @@ Determinate ==
        /\ (r.st = "ok" /\ r.at >= 0 => PathTo(tree, r.at) = q)
        /\ LET f == ResolveTree(Flat(tree), q) IN f.st = r.st /\ f.at = r.at /\ f.idx = r.idx
 
+\* the returned node IS the named entry (phase M): a directory node lists / looks up exactly the names
+\* that resolve one segment further, to the same targets; layout never shows; the components of an
+\* existing path are the targets of its prefixes
+UseSane ==
+  /\ \A d \in 0..n :
+       LET u == Use(tree, d, Probe(tree)) IN
+         /\ u.kind = (IF IsDir(tree, d) THEN "dir" ELSE "file") /\ u.content = d
+         /\ \A nm \in Probe(tree) :
+              LET r == ResolveTree(tree, Append(PathTo(tree, d), nm)) IN
+                IF Look(tree, d, nm) # NoEntry THEN r.st = "ok" /\ r.at = Look(tree, d, nm) ELSE r.st # "ok"
+         /\ \A e \in u.ents : Look(tree, d, e[1]) = e[2] /\ tree.nodes[e[2]].p = d
+         /\ Cardinality(u.ents) = Cardinality(Children(tree, d))
+         /\ u.fill[1] = Cardinality({f \in 1..tree.fill : Look(tree, d, 0 - f) = FillerFile})
+         /\ Use(Flat(tree), d, Probe(tree)) = u
+  /\ \A q \in Existing(tree) \cup Missing(tree) \cup BelowFiles(tree) :
+       LET r == ResolveTree(tree, q) IN
+         r.st = "ok" => /\ Len(Via(tree, q)) = Len(q) + 1 /\ Via(tree, q)[Len(q) + 1] = r.at
+                        /\ \A j \in 0..Len(q) : ResolveTree(tree, SubSeq(q, 1, j)).at = Via(tree, q)[j + 1]
+
 \* -simulate: random larger trees; print when full
 Flush == /\ n = N
-         /\ PrintT(<<"BEHAVIOUR", ToJson([k |-> "tree", fan |-> fan, kpool |-> K, tree |-> tree, queries |-> Queries(tree)])>>)
+         /\ PrintT(<<"BEHAVIOUR", ToJson([k |-> "tree", fan |-> fan, kpool |-> K, tree |-> tree, uses |-> Uses(tree), fuse |-> FillerUse(tree), queries |-> Queries(tree)])>>)
          /\ fan' \in Fans
          /\ \E rk \in RootKinds, f \in Fills :
                tree' = [rootk |-> rk, rootFilled |-> f > 0, fill |-> f, nodes |-> <<>>]
